@@ -121,11 +121,11 @@ def _context_formulas(pc, fids, level, exp_monotone=False, extra=()):
 def prove_zero(d, pc, timeout_s=20.0, name="", levels=(0, 1), assume_guards=True, extra=(), try_expand=True):
     """is d == 0 on every input satisfying assumptions+pc (+ the guards under which d is defined)?
     returns dict(verdict, model, info...)"""
-    d = to_rat(d)
+    d = to_rat(d) if not isinstance(d, core.UndefinedValue) else d
     t0 = time.time()
     out = {"name": name, "verdict": None, "model": None, "how": None}
-    if isinstance(d, core.UndefinedValue):
-        out.update(verdict="undefined", how=d.why)
+    if nonfinite(d):
+        out.update(verdict="undefined", how=getattr(d, "why", repr(d)))
         return out
     if d.c == 0:
         out.update(verdict="unsat", how="normal-form", time_s=0.0, solver="symx-normal-form")
@@ -182,12 +182,21 @@ def reachable(pc, timeout_s=10.0, level=1, extra=()):
     return v, model
 
 
+def nonfinite(x):
+    """a value that is undefined / infinite on the whole path (IEEE x/0, 0/0, log 0 ...)"""
+    if isinstance(x, core.UndefinedValue):
+        return True
+    if isinstance(x, float):
+        return x != x or x in (float("inf"), float("-inf"))
+    return False
+
+
 def check_defined(rats, pc, timeout_s=10.0, name="defined"):
     """every guard of every output must be implied by assumptions + pc."""
     gs = set()
     for r in rats:
-        if isinstance(r, core.UndefinedValue):
-            return {"name": name, "verdict": "sat", "how": "undefined-on-all-inputs", "model": None, "what": r.why}
+        if nonfinite(r):
+            return {"name": name, "verdict": "sat", "how": "undefined-on-all-inputs", "model": None, "what": getattr(r, "why", repr(r))}
         gs |= to_rat(r).g
     res = {"name": name, "verdict": "unsat", "n_guards": len(gs), "how": "no-guards" if not gs else "solver", "model": None}
     for gid, kind, fid, term in core.guard_terms(gs):
